@@ -313,8 +313,13 @@ def _run(ctx, collect):
         # on a loaded machine (a thorough run asks for ~10^4 answers about one schema)
         answers = []
         schema_dump = world.dump()
+        import os
         for i in range(0, len(docs), 500):
-            answers += ctx.driver.ask([{"op": "validate_many", "schema": schema_dump, "fixes": fixes, "docs": docs[i:i + 500]}])[0]
+            req = {"op": "validate_many", "schema": schema_dump, "fixes": fixes, "docs": docs[i:i + 500]}
+            if os.environ.get("C06_DUMP_REQ"):      # debugging aid: the request being asked, for bisecting a slow answer
+                with open(os.environ["C06_DUMP_REQ"], "w") as fh:
+                    json.dump({"req": req, "texts": [m[1] for m in meta[i:i + 500]], "sdl": world.sdl}, fh)
+            answers += ctx.driver.ask([req], timeout=int(os.environ.get("C06_ASK_TIMEOUT", "600")))[0]
         alone_real = {}
         for (kind, text, real, label, feature, rule), ans in zip(meta, answers):
             ctx.count()
